@@ -247,6 +247,41 @@ fn flat_size_case(n: usize, out: &mut Out) {
                 }
             }
         }
+        // the same reading with a zero frame around it: 1x1 identity convolution with padding
+        // (ph, pw) on the flat vector must give the index image inside a frame of zeros
+        if kind == "conv" && square && n <= 400 {
+            for (ph, pw) in [(0usize, 1usize), (1, 0), (1, 1), (0, 2), (2, 1)] {
+                let r2 = guard(|| {
+                    let mut l = convolution::Convolution::create(Shape::Single(n), 1, &lin, (1, 1), (1, 1), (ph, pw), (1, 1), None);
+                    l.verif_set_kernels(identity_kernels(1));
+                    crate::monitors::c02::layer_fwd(&Layer::Convolution(l), &Tensor::single(index.iter().map(|v| v + 1.0).collect()))
+                });
+                out.count("flat_sizes_read_through_a_padded_convolution", 1);
+                match r2 {
+                    Err(m) => out.viol("transition:conv:padded-forward-panic", format!("conv(padding {}x{}) on a flat input of {} elements panicked: {}", ph, pw, n, short(&m, 160)), J::Null),
+                    Ok((pre, _)) => {
+                        let (oh, ow) = (r + 2 * ph, r + 2 * pw);
+                        let want: Vec<f32> = (0..oh * ow)
+                            .map(|q| {
+                                let (y, x) = (q / ow, q % ow);
+                                if y >= ph && y < ph + r && x >= pw && x < pw + r {
+                                    ((y - ph) * r + (x - pw)) as f32 + 1.0
+                                } else {
+                                    0.0
+                                }
+                            })
+                            .collect();
+                        if shape_dims(&pre.shape) != vec![1, oh, ow] || !bits_eq(&flat(&pre), &want) {
+                            out.viol(
+                                "transition:conv:flat-to-spatial-order:padded",
+                                format!("conv with padding {}x{} reads a flat vector of {} = {}x{} elements as shape {:?}; the {}x{} image inside its zero frame is in row-major order: {}", ph, pw, n, r, r, shape_dims(&pre.shape), r, r, bits_eq(&flat(&pre), &want)),
+                                J::obj().set("flat_size", J::Int(n as i64)).set("padding", J::usizes(&[ph, pw])),
+                            );
+                        }
+                    }
+                }
+            }
+        }
         // network level (the shape the preceding dense layer announces)
         if n <= 150 {
             let r2 = guard(|| {
@@ -337,7 +372,7 @@ impl Monitor for C08 {
         vec![("lattice", tier.pick(4320 * 150, 3 * 1440 * 1440)), ("sequences", tier.pick(75_000, 750_000)), ("large_extents", tier.pick(3_000, 60_000)), ("flat_sizes", 1100), ("large_flat_sizes", 1), ("flatten", tier.pick(15_000, 150_000))]
     }
     fn rule(&self) -> &'static str {
-        "lattice: single conv/deconv/pool layers; axis 0 enumerates (extent 1..10, kernel 1..4, stride 1..3, padding 0..3, dilation 1..3) completely, axis 1 follows a covering walk over the same 1440 tuples; configurations invalid by the standard formulas are skipped (counted); for the others: the `inputs -> outputs` line of the network's Display == closed form (conv floor((i+2p-d(k-1)-1)/s)+1, deconv (i-1)s-2p+k, pool floor((i-k)/s)+1) == shape field and nesting of the tensors forward produces, and every weight/bias/kernel gradient of the hooked backward has the shape of its parameter. large_extents: single conv/deconv/pool layers (every third followed by a dense layer) with one extent from {31..33, 63..66, 127..130, 255..257}, 1..17 channels and filters, kernels 1..7, stride 1..5, padding 0..4, dilation 1..4, any activation - same checks. sequences: random networks of depth 1..5 with all transitions, every fourth with a feedback block. flat_sizes: EVERY flat size n = 1..1100 x {conv, deconv, pool}: accepted iff n is a perfect square, then read as 1 x r x r in row-major order (index-valued input through 1x1 identity layers); network-level (dense(n) followed by the spatial layer) for n <= 150. large_flat_sizes: r*r + d for r in {4095..100003}, d in -3..3 (lengths beyond 2^24 that single precision cannot represent), layer level. flatten: spatial output into identity dense layer must arrive in row-major order."
+        "lattice: single conv/deconv/pool layers; axis 0 enumerates (extent 1..10, kernel 1..4, stride 1..3, padding 0..3, dilation 1..3) completely, axis 1 follows a covering walk over the same 1440 tuples; configurations invalid by the standard formulas are skipped (counted); for the others: the `inputs -> outputs` line of the network's Display == closed form (conv floor((i+2p-d(k-1)-1)/s)+1, deconv (i-1)s-2p+k, pool floor((i-k)/s)+1) == shape field and nesting of the tensors forward produces, and every weight/bias/kernel gradient of the hooked backward has the shape of its parameter. large_extents: single conv/deconv/pool layers (every third followed by a dense layer) with one extent from {31..33, 63..66, 127..130, 255..257}, 1..17 channels and filters, kernels 1..7, stride 1..5, padding 0..4, dilation 1..4, any activation - same checks. sequences: random networks of depth 1..5 with all transitions, every fourth with a feedback block. flat_sizes: EVERY flat size n = 1..1100 x {conv, deconv, pool}: accepted iff n is a perfect square, then read as 1 x r x r in row-major order (index-valued input through 1x1 identity layers); for squares up to 400 additionally through 1x1 identity convolutions with paddings (0,1), (1,0), (1,1), (0,2), (2,1): the r x r image must sit in row-major order inside its frame of zeros; network-level (dense(n) followed by the spatial layer) for n <= 150. large_flat_sizes: r*r + d for r in {4095..100003}, d in -3..3 (lengths beyond 2^24 that single precision cannot represent), layer level. flatten: spatial output into identity dense layer must arrive in row-major order."
     }
     fn assumptions(&self) -> Vec<&'static str> {
         vec!["the Display output of Network is parsed black-box for the announced shapes", "harness built with overflow checks on"]
